@@ -330,6 +330,8 @@ def run(prog, tier, extra=None):
 
     # a rebroadcast "consumes" the expiring output only if its input is looked up in the UTXO set like any other input
     from ._include import include
+    include(res, prog, tier, extra, "c03", ["C03.ring-positions"],
+            "the block leaving the window, and whether rebroadcasts are checked at all, are found through the by-height index: its positions must be ring positions")
     include(res, prog, tier, extra, "c03", ["C03.tx-apply-total"],
             "a rebroadcast replaces the expiring output - and a reorganisation gives it back - only if every input and output of every transaction is (un)wound")
     include(res, prog, tier, extra, "c01", ["C01.utxo-lookup"],
